@@ -320,4 +320,4 @@ def case_st(draw):
 
 
 def parts():
-    return [Part("histories", check, strategy=case_st(), budget={"quick": 2000, "thorough": 50000})]
+    return [Part("histories", hs.with_epoch(check), strategy=hs.plus_epoch(case_st()), budget={"quick": 2000, "thorough": 50000})]
